@@ -49,6 +49,17 @@ func init() {
 		sc := genFOBase(r, foShape{minClients: 1, maxClients: 5, maxKeys: 3, maxOps: 4, sleeps: true, skipRead: true, faults: true, callerTricks: true})
 		sc.FO.Followup = true
 
+		// builders may also fail by panicking (recovered by the caller)
+		if chance(r, 0.25) {
+			for c := range sc.FO.Clients {
+				for i := range sc.FO.Clients[c] {
+					if sc.FO.Clients[c][i].Kind == "get" && chance(r, 0.3) {
+						sc.FO.Clients[c][i].BuildPanic = true
+					}
+				}
+			}
+		}
+
 		return sc
 	}
 	gens["C05"] = genC05
